@@ -126,8 +126,23 @@ func (s *vScope) Serialize(data any) (any, error) {
 }
 
 // redirect targets: validation of stage inputs / workflow outputs succeeds (type soundness is C08's subject)
-func verifObjectUnserialize(o *schema.ObjectSchema, data any) (any, error)         { return data, nil }
-func verifStepOutputUnserialize(o *schema.StepOutputSchema, data any) (any, error) { return data, nil }
+var verifRejectStageInput, verifRejectOutput bool
+var verifValidated, verifOutputValidated int
+
+func verifObjectUnserialize(o *schema.ObjectSchema, data any) (any, error) {
+	verifValidated++
+	if verifRejectStageInput {
+		return nil, &verifrt.Err{Msg: "stage input does not match its schema"}
+	}
+	return data, nil
+}
+func verifStepOutputUnserialize(o *schema.StepOutputSchema, data any) (any, error) {
+	verifOutputValidated++
+	if verifRejectOutput {
+		return nil, &verifrt.Err{Msg: "output does not match its schema"}
+	}
+	return data, nil
+}
 
 // ---------------------------------------------------------------------------
 // lifecycle data of the plugin provider (stage ids, input fields, next stages are read from the real
